@@ -86,6 +86,9 @@ func (fd *Client) setFailureCondition(condition FailureCondition) {
 
 // SetInterpreter assigns a native interpreter
 func (fd *Client) SetInterpreter(i interpreter.Interpreter) {
+	fd.mu.Lock()
+	defer fd.mu.Unlock()
+
 	native, ok := i.(*interpreter.Native)
 	if !ok {
 		panic("invalid interpreter type")
@@ -100,11 +103,17 @@ func (fd *Client) SetInterpreter(i interpreter.Interpreter) {
 
 // GetNativeInterpreter returns native interpreter
 func (fd *Client) GetNativeInterpreter() *interpreter.Native {
+	fd.mu.Lock()
+	defer fd.mu.Unlock()
+
 	return fd.nativeInterpreter
 }
 
 // CreateTable creates a new table
 func (fd *Client) CreateTable(input *dynamodb.CreateTableInput) (*dynamodb.CreateTableOutput, error) {
+	fd.mu.Lock()
+	defer fd.mu.Unlock()
+
 	if err := input.Validate(); err != nil {
 		return nil, err
 	}
@@ -147,6 +156,9 @@ func (fd *Client) CreateTableWithContext(ctx aws.Context, input *dynamodb.Create
 
 // DeleteTable deletes a table
 func (fd *Client) DeleteTable(input *dynamodb.DeleteTableInput) (*dynamodb.DeleteTableOutput, error) {
+	fd.mu.Lock()
+	defer fd.mu.Unlock()
+
 	if err := input.Validate(); err != nil {
 		return nil, err
 	}
@@ -174,6 +186,9 @@ func (fd *Client) DeleteTableWithContext(ctx aws.Context, input *dynamodb.Delete
 
 // UpdateTable update a table
 func (fd *Client) UpdateTable(input *dynamodb.UpdateTableInput) (*dynamodb.UpdateTableOutput, error) {
+	fd.mu.Lock()
+	defer fd.mu.Unlock()
+
 	if err := input.Validate(); err != nil {
 		return nil, err
 	}
@@ -217,6 +232,9 @@ func (fd *Client) UpdateTableWithContext(ctx aws.Context, input *dynamodb.Update
 
 // DescribeTable returns information about the table
 func (fd *Client) DescribeTable(input *dynamodb.DescribeTableInput) (*dynamodb.DescribeTableOutput, error) {
+	fd.mu.Lock()
+	defer fd.mu.Unlock()
+
 	tableName := aws.StringValue(input.TableName)
 
 	table, err := fd.getTable(tableName)
@@ -505,6 +523,9 @@ func (fd *Client) ScanWithContext(ctx aws.Context, input *dynamodb.ScanInput, op
 
 // SetItemCollectionMetrics set the value of the property itemCollectionMetrics
 func (fd *Client) setItemCollectionMetrics(itemCollectionMetrics map[string][]*dynamodb.ItemCollectionMetrics) {
+	fd.mu.Lock()
+	defer fd.mu.Unlock()
+
 	fd.itemCollectionMetrics = itemCollectionMetrics
 }
 
@@ -544,7 +565,7 @@ func (fd *Client) BatchWriteItem(input *dynamodb.BatchWriteItemInput) (*dynamodb
 
 	return &dynamodb.BatchWriteItemOutput{
 		UnprocessedItems:      unprocessed,
-		ItemCollectionMetrics: fd.itemCollectionMetrics,
+		ItemCollectionMetrics: fd.getItemCollectionMetrics(),
 	}, nil
 }
 
@@ -633,8 +654,8 @@ func handleBatchWriteRequestError(table string, req *dynamodb.WriteRequest, unpr
 
 // TransactWriteItems mock response for dynamodb
 func (fd *Client) TransactWriteItems(input *dynamodb.TransactWriteItemsInput) (*dynamodb.TransactWriteItemsOutput, error) {
-	if fd.forceFailureErr != nil {
-		return nil, fd.forceFailureErr
+	if err := fd.getForceFailureErr(); err != nil {
+		return nil, err
 	}
 
 	//TODO: Implement transact write
@@ -645,6 +666,22 @@ func (fd *Client) TransactWriteItems(input *dynamodb.TransactWriteItemsInput) (*
 // TransactWriteItemsWithContext mock response for dynamodb
 func (fd *Client) TransactWriteItemsWithContext(ctx aws.Context, input *dynamodb.TransactWriteItemsInput, opts ...request.Option) (*dynamodb.TransactWriteItemsOutput, error) {
 	return fd.TransactWriteItems(input)
+}
+
+// getItemCollectionMetrics returns the configured item collection metrics under the client mutex
+func (fd *Client) getItemCollectionMetrics() map[string][]*dynamodb.ItemCollectionMetrics {
+	fd.mu.Lock()
+	defer fd.mu.Unlock()
+
+	return fd.itemCollectionMetrics
+}
+
+// getForceFailureErr returns the emulated failure, if any, under the client mutex
+func (fd *Client) getForceFailureErr() error {
+	fd.mu.Lock()
+	defer fd.mu.Unlock()
+
+	return fd.forceFailureErr
 }
 
 func (fd *Client) getTable(tableName string) (*core.Table, error) {
